@@ -3,7 +3,10 @@ C28 — Values round-trip through their wire representation.
 
 Model: Gms/Model/Wire.lean (Impl model of `Type.SQL` / `MaxTextResponseByteLength` / the field packet,
 Spec readers). The inverse for integers and BIT is the Impl model of `Type.Convert` of
-Gms/Model/NumConv.lean (C26/C27). Regenerated facts: Gms/Generated/C28.lean.
+Gms/Model/NumConv.lean (C26/C27). Character-set dependent half (ENUM, SET, CHAR/VARCHAR, TEXT: length
+fixed at type construction vs. bytes transcoded into `character_set_results` at encode time):
+Gms/Model/WireCs.lean, lemmas in Gms/Lemmas/WireCs.lean, theorems in section `CharacterSets` below.
+Regenerated facts: Gms/Generated/C28.lean.
 -/
 import Gms.Model.Wire
 import Gms.Lemmas.WireCs
@@ -954,6 +957,27 @@ theorem set_announced_attained (col : Cs) (hw : col.maxLen = 4) (ms : List Str)
 example : ∃ bs, sentText (.cs .utf32) (.set .utf8mb4 [[109, 111, 110], [116, 117, 101]]) (.bits 3) = some bs ∧
     bs.length = 28 ∧ announced (.cs .utf32) (.set .utf8mb4 [[109, 111, 110], [116, 117, 101]]) = 28 := ⟨_, rfl, by decide⟩
 
+/-! ### Round trip under every result character set -/
+
+/-- **`cs_text_roundtrip`**: whenever a value of an ENUM / SET / CHAR / VARCHAR / TEXT column can be sent
+at all under `character_set_results = res`, decoding the bytes in the effective result character set
+(utf8mb4, utf8mb3, latin1/cp1252, ascii, utf16 with surrogate pairs, utf32, or the column's own
+character set for NULL/binary) yields exactly the characters of the stored value. No region. -/
+theorem cs_text_roundtrip (res : WireCs.Res) (t : WireCs.Ty) (v : WireCs.Val) (bs : Utf8.Bytes)
+    (h : sentText res t v = some bs) :
+    ∃ s, plainText t v = some s ∧ decodeCs (res.effective t.col) (bs.length + 1) bs = some s := by
+  unfold sentText at h
+  cases hp : plainText t v with
+  | none => simp [hp] at h
+  | some s =>
+    simp only [hp] at h
+    exact ⟨s, rfl, decode_encode_cs _ s bs _ h (by have := encode_length_ge _ s bs h; omega)⟩
+
+example : sentText (.cs .utf16) (.char .utf8mb4 3) (.str [0xE9, 0x61, 0x1F600]) =
+      some [0x00, 0xE9, 0x00, 0x61, 0xD8, 0x3D, 0xDE, 0x00] ∧
+    roundTrip (.cs .utf16) (.char .utf8mb4 3) (.str [0xE9, 0x61, 0x1F600]) = true ∧
+    roundTrip (.cs .latin1) (.enum .utf8mb4 [[0x20AC, 0x35]]) (.idx 1) = true := by decide
+
 end CharacterSets
 
 /-! ## Regenerated facts -/
@@ -984,6 +1008,36 @@ theorem facts_match :
       "SQLUint32: num > math.MaxUint32", "SQLUint64: num > math.MaxUint64"] ∧
     dateFormatTests = ["t.Equal(ZeroTime)", "year == 0"] ∧
     columnLengthExpr = "c.Type.MaxTextResponseByteLength(ctx)" := by decide
+
+/-- Character sets: `Cs.maxLen` is `MaxLength()` of the compiled table (Unspecified carries utf8mb4's 4), the
+model's cp1252 table is `encodings.Latin1` on all 256 bytes, `encodeCp` is `Encoder().Encode` at the
+boundaries of every encoding form of the seven encoders, `announced` is `MaxTextResponseByteLength` of
+132 compiled ENUM / SET / CHAR / VARCHAR types over the six column character sets (the SET lengths
+include the separators at full character width) and of TINYTEXT / TEXT under all eight settings of
+`character_set_results`; the six encode functions choose the column's character set exactly when
+`character_set_results` is unspecified or binary. -/
+theorem facts_cs :
+    csMaxLens = ("", WireCs.Res.null.rawMaxLen) :: WireCs.Cs.all.map (fun c => (c.name, c.maxLen)) ∧
+    latin1Table = (List.range 256).map WireCs.latin1Cp ∧
+    encSamples.all (fun e => (WireCs.Cs.ofName? e.1).any fun c =>
+      (match WireCs.encodeCp c e.2.1 with | some bs => bs | none => [256]) == e.2.2) = true ∧
+    encSamples.length = 154 ∧
+    csTypeLens.all (fun e => (WireCs.Cs.ofName? e.2.1).any fun c =>
+      WireCs.announced .null (if e.1 == "enum" then .enum c e.2.2.1 else if e.1 == "set" then .set c e.2.2.1
+        else .char c e.2.2.2.1) == e.2.2.2.2) = true ∧
+    csTypeLens.length = 132 ∧
+    csTextLens.all (fun e => match WireCs.Res.ofName? e.1, WireCs.Cs.ofName? e.2.1 with
+      | some r, some c => WireCs.announced r (.text c e.2.2.1) == e.2.2.2
+      | _, _ => false) = true ∧
+    csTextLens.length = 96 ∧
+    resultCharsetTests = [
+      "EnumType.SQL: cs == sql.CharacterSet_Unspecified || cs == sql.CharacterSet_binary",
+      "EnumType.SQLValue: cs == sql.CharacterSet_Unspecified || cs == sql.CharacterSet_binary",
+      "SetType.SQL: cs == sql.CharacterSet_Unspecified || cs == sql.CharacterSet_binary",
+      "SetType.SQLValue: cs == sql.CharacterSet_Unspecified || cs == sql.CharacterSet_binary",
+      "StringType.SQL: cs == sql.CharacterSet_Unspecified || cs == sql.CharacterSet_binary",
+      "StringType.SQLValue: cs == sql.CharacterSet_Unspecified || cs == sql.CharacterSet_binary"] := by
+  decide +kernel
 
 end Facts
 
